@@ -79,6 +79,14 @@ func ResourceCorpus(packageRoot string, seed int64, variant, nRandom int) *Schem
 		{Name: "count", Type: P("int32"), Default: sp("1")},
 	}})
 
+	// the alphabetically last fields (generated marshalers write fields in that order) are annotated leaves
+	s.Add(&Named{Ident: Ident{"AnnotatedLast", ns}, Kind: "record", Fields: []Field{
+		{Name: "body", Type: P("string")},
+		{Name: "mid", Type: R(ns, "Leaf"), Optional: true},
+		{Name: "zstamp", Type: P("int64"), Optional: true}, // read-only
+		{Name: "ztype", Type: P("string"), Optional: true}, // create-only
+	}})
+
 	pt := paramTypes(ns)
 	allParams := func(prefix string, n int, off int) []Field {
 		var fs []Field
@@ -186,6 +194,11 @@ func ResourceCorpus(packageRoot string, seed int64, variant, nRandom int) *Schem
 	ann2.Methods = restMethods([]string{"create", "batch_create", "partial_update", "update", "get"}, true, true, nil, false)
 	ann2.ReadOnly = []string{"id"}
 	s.Resources = append(s.Resources, ann2)
+	ann3 := collection("vr.annlast", nil, "annlast", "annId", P("int32"), R(ns, "AnnotatedLast"))
+	ann3.Methods = restMethods(restMethodsCollection, true, false, nil, false)
+	ann3.ReadOnly = []string{"zstamp"}
+	ann3.CreateOnly = []string{"ztype"}
+	s.Resources = append(s.Resources, ann3)
 
 	if nRandom > 0 {
 		randomResources(s, ns, seed, nRandom)
